@@ -1,5 +1,7 @@
 import YncaVerif.Model.Hex
 import YncaVerif.Model.Conv
+import YncaVerif.Model.Subunit
+import YncaVerif.Model.Framing
 import YncaVerif.Gen.Enums
 import YncaVerif.Gen.Functions
 import YncaVerif.Gen.Consts
@@ -9,7 +11,6 @@ open Ynca
     result line per operation.  Strings are hex(UTF-8), "-" is the empty string. -/
 
 def findCls (py : String) : Option Cls := Gen.classes.find? (·.py == py)
-def findFn (c : Cls) (name : String) : Option Fn := c.fns.find? (·.name == name)
 
 def parsePyVal (tok : String) : Option PyVal :=
   match tok.splitOn ":" with
@@ -69,17 +70,145 @@ def stepLine (mode : String) (line : String) : String :=
     | none => "bad-op"
   | _, _ => "bad-op"
 
-partial def loop (mode : String) (h : IO.FS.Stream) (out : IO.FS.Stream) : IO Unit := do
+/-! ### stateful modes -/
+
+structure DState where
+  objs : Array SubSt := #[]
+  buf : List UInt8 := []
+  kaPending : Bool := false
+
+def noExotic : Exotic := fun _ _ => none
+
+def optOfTok (t : String) : Option (Option String) :=
+  if t == "~" then some none else (Hex.strOfHex t).map some
+
+def statusOfTok : String → Option Status
+  | "OK" => some .ok
+  | "UNDEFINED" => some .undefined
+  | "RESTRICTED" => some .restricted
+  | _ => none
+
+def showOptVal : Option Val → String
+  | some v => showVal v
+  | none => "NONE"
+
+def showWrite : WriteResult → String
+  | .put fn t => "PUT " ++ Hex.hexOfStr fn ++ " " ++ Hex.hexOfStr t
+  | .attributeError => "AE"
+  | .raises => "R"
+  | .unspecified => "U"
+  | .noSuchAttr => "NOATTR"
+
+def showSent : Sent → String
+  | .put s f v => s!"put:{Hex.hexOfStr s}:{Hex.hexOfStr f}:{Hex.hexOfStr v}"
+  | .get s f => s!"get:{Hex.hexOfStr s}:{Hex.hexOfStr f}"
+
+def showMsg (m : Msg) : String :=
+  let st := match m.status with | .ok => "OK" | .undefined => "UNDEFINED" | .restricted => "RESTRICTED"
+  let o (x : Option String) := match x with | some s => Hex.hexOfStr s | none => "~"
+  s!"{st} {o m.subunit} {o m.fn} {o m.value}"
+
+def deliver (d : DState) (m : Msg) : DState × String :=
+  let r := d.objs.foldl (init := ((#[] : Array SubSt), ([] : List String), 0)) (fun (acc : Array SubSt × List String × Nat) st =>
+    let (objs, outs, i) := acc
+    let st' := recv Gen.enums noExotic st m
+    let newCalls := st'.calls.drop st.calls.length
+    let o := newCalls.map (fun c => s!"{i}:{c.cb}:{Hex.hexOfStr c.fn}:{showVal c.val}")
+    (objs.push st', outs ++ o, i + 1))
+  ({ d with objs := r.1 }, if r.2.1.isEmpty then "-" else " ".intercalate r.2.1)
+
+def withObj (d : DState) (idx : String) (f : SubSt → SubSt × String) : DState × String :=
+  match idx.toNat? with
+  | some i => if h : i < d.objs.size then
+      let (st', out) := f d.objs[i]
+      ({ d with objs := d.objs.set i st' }, out)
+    else (d, "bad-index")
+  | none => (d, "bad-op")
+
+def parseArgs (toks : List String) : Option (List PyVal) := toks.mapM parsePyVal
+
+def stepState (mode : String) (d : DState) (line : String) : DState × String :=
+  let toks := (line.splitOn " ").filter (· ≠ "")
+  match mode, toks with
+  | "subunit", ["new", py] =>
+    match findCls py with
+    | some c => ({ d with objs := d.objs.push (SubSt.new c) }, "ok")
+    | none => (d, "no-class")
+  | "subunit", ["initbegin", idx] =>
+    withObj d idx (fun st =>
+      if st.closed then (st, "closed") else
+      let sends := initSends st.cls
+      ({ st with sent := st.sent ++ sends, event := false, initialized := false },
+       " ".intercalate (sends.map showSent)))
+  | "subunit", ["initend", idx] =>
+    withObj d idx (fun st =>
+      if st.event then ({ st with initialized := true }, "ok") else (st, "timeout"))
+  | "subunit", ["msg", st, su, fn, v] =>
+    match statusOfTok st, optOfTok su, optOfTok fn, optOfTok v with
+    | some st, some su, some fn, some v => deliver d ⟨st, su, fn, v⟩
+    | _, _, _, _ => (d, "bad-op")
+  | "subunit", ["read", idx, attr] =>
+    withObj d idx (fun st => (st, match readAttr st attr with
+      | .value v => "V " ++ showOptVal v
+      | .attributeError => "AE"
+      | .noSuchAttr => "NOATTR"))
+  | "subunit", ["dump"] =>
+    let parts := (d.objs.toList.zipIdx).flatMap (fun (st, i) =>
+      st.cls.fns.filterMap (fun f =>
+        if f.get then (cacheGet st.cache f.name).map (fun v => s!"{i}.{f.attr}={showVal v}") else none))
+    (d, if parts.isEmpty then "-" else " ".intercalate parts)
+  | "subunit", "assign" :: idx :: attr :: [v] =>
+    match parsePyVal v with
+    | some v => withObj d idx (fun st => let (st', r) := assign Gen.enums st attr v; (st', showWrite r))
+    | none => (d, "bad-op")
+  | "subunit", "act" :: idx :: meth :: args =>
+    match parseArgs args with
+    | some args => withObj d idx (fun st => let (st', r) := act Gen.enums st meth args; (st', showWrite r))
+    | none => (d, "bad-op")
+  | "subunit", ["reg", idx, cb] =>
+    match cb.toNat? with
+    | some cb => withObj d idx (fun st => (registerCb st cb, "ok"))
+    | none => (d, "bad-op")
+  | "subunit", ["unreg", idx, cb] =>
+    match cb.toNat? with
+    | some cb => withObj d idx (fun st => (unregisterCb st cb, "ok"))
+    | none => (d, "bad-op")
+  | "subunit", ["close", idx] => withObj d idx (fun st => (closeSub st, "ok"))
+  | "subunit", ["sent", idx] => withObj d idx (fun st => (st, if st.sent.isEmpty then "-" else " ".intercalate (st.sent.map showSent)))
+  | "subunit", ["queries", py] =>
+    match findCls py with
+    | some c => (d, " ".intercalate ((initSends c).map showSent))
+    | none => (d, "no-class")
+  -- framing: `chunk <hexbytes>` feeds one read; prints the parsed message of every completed line
+  | "frame", ["chunk", h] =>
+    match Hex.bytesOfHex h with
+    | some bs =>
+      let (pkts, rest) := feed CR LF d.buf bs
+      let outs := pkts.map (fun p => match String.fromUTF8? (ByteArray.mk p.toArray) with
+        | some s => "L " ++ showMsg (parseLine s)
+        | none => "X " ++ Hex.hexOfBytes p)        -- not valid UTF-8: the 'replace' decoding is not modelled
+      ({ d with buf := rest }, if outs.isEmpty then "-" else " | ".intercalate outs)
+    | none => (d, "bad-op")
+  | "frame", ["buffer"] => (d, Hex.hexOfBytes d.buf)
+  | "frame", ["reset"] => ({ d with buf := [] }, "ok")
+  | "frame", ["line", h] =>
+    match Hex.strOfHex h with
+    | some s => (d, showMsg (parseLine s))
+    | none => (d, "bad-op")
+  | m, _ => (d, stepLine m line)
+
+partial def loop (mode : String) (h : IO.FS.Stream) (out : IO.FS.Stream) (d : DState) : IO Unit := do
   let line ← h.getLine
   if line.isEmpty then return ()
   let line := (line.dropRightWhile (fun c => c == '\n' || c == '\r'))
-  out.putStrLn (stepLine mode line)
-  loop mode h out
+  let (d', o) := stepState mode d line
+  out.putStrLn o
+  loop mode h out d'
 
 def main (args : List String) : IO UInt32 := do
   let mode := args.headD "none"
   let stdin ← IO.getStdin
   let stdout ← IO.getStdout
-  loop mode stdin stdout
+  loop mode stdin stdout {}
   stdout.flush
   return 0
